@@ -7,6 +7,10 @@ GT = "./internal/mysql/gtids"
 OPT = "./internal/app/optimization"
 
 REGISTRY = {
+    "C08": dict(
+        level="exploration",
+        units=[dict(pkg=APP, test="TestVerifC08", quick=4000, thorough=200000, shards_quick=16, shards_thorough=16)],
+    ),
     "C05": dict(
         level="exploration",
         units=[dict(pkg=APP, test="TestVerifC05", quick=2400, thorough=100000, shards_quick=16, shards_thorough=16)],
